@@ -1,3 +1,4 @@
+import AmVerif.Gen.Skel
 import AmVerif.Lemmas.CellStep
 import AmVerif.Lemmas.CellFail
 import AmVerif.Lemmas.CellLive
@@ -257,5 +258,17 @@ example : ((reach .bomb 5 demoCalls (List.replicate 12 1)).ths 1).results = [.pa
 /-- no-drop path: the seed is forgotten, never dropped -/
 example : (reach .plain 5 demoCalls (List.replicate 8 1)).sh =
     { kind := .plain, once := .done, data := .value 6, inits := 1, seedLeaks := 1 } := by decide
+
+/-- Both maps (sharded `AssetCache`, single-threaded `LocalAssetCache`) insert with `entry(key).or_insert(entry)` inside one
+lock / borrow scope: the first entry for a key survives, handles that were given out stay valid, a late entry is dropped. -/
+theorem C17_insert_keeps_first :
+    AmVerif.Gen.skel_cache_AssetMap_for_AssetMap_insert = [.call .s_get_shard, .acq .s_write 0, .call .s_entry, .call .s_or_insert, .rel 0] ∧
+    AmVerif.Gen.skel_local_cache_AssetMap_for_AssetMap_insert = [.acq .s_borrow_mut 0, .call .s_entry, .call .s_or_insert, .rel 0] := ⟨rfl, rfl⟩
+
+/-- A stored cell is replaced by hot-reloading only inside the entry's write-lock scope (swap, id, flag; old value dropped
+by the caller afterwards): no reader can be inside `get_or_init` of a cell that is being swapped. -/
+theorem C17_write_under_lock : AmVerif.Gen.skel_entry_UntypedEntry_write =
+    [.branch [[.acq .s_write 0, .call .s_get, .call .s_get_mut, .call .s_swap_any, .call .s_increment, .call .s_store_Release, .rel 0, .ret], []],
+     .call .s_wrong_handle_type] := rfl
 
 end AmVerif.Props.C17
